@@ -5,6 +5,7 @@
 package simdev
 
 import (
+	"bytes"
 	"errors"
 	"io"
 	"math/rand"
@@ -99,6 +100,7 @@ type Pipe struct {
 	Closes          int
 	OpenErr         error
 
+	OnlCR       bool // every LF the device produces is delivered as CR LF
 	RecordTrace bool
 	Trace       []Event
 	seq         int
@@ -152,9 +154,23 @@ func (p *Pipe) ev(kind string, b []byte) {
 	p.Trace = append(p.Trace, Event{N: p.seq, Ev: kind, B: string(b), State: st, Pos: p.delivered})
 }
 
+// delivOff maps an offset into what the device wrote to the offset in what is delivered (CR LF for LF).
+func (p *Pipe) delivOff(b []byte, off int) int {
+	if !p.OnlCR || off > len(b) {
+		return off
+	}
+
+	return off + bytes.Count(b[:off], []byte("\n"))
+}
+
 func (p *Pipe) produce(b []byte) {
 	if len(b) == 0 {
 		return
+	}
+
+	if p.OnlCR {
+		// a terminal line discipline between the peer and us (onlcr): every line feed arrives as CR LF
+		b = bytes.ReplaceAll(b, []byte("\n"), []byte("\r\n"))
 	}
 
 	base := p.produced
@@ -517,7 +533,7 @@ func (p *Pipe) Write(b []byte) error {
 			p.delayQ <- delayed{at: time.Now().Add(p.ReactDelay), b: out, bounds: offs}
 		} else {
 			for _, off := range offs {
-				p.bounds = append(p.bounds, p.produced+off)
+				p.bounds = append(p.bounds, p.produced+p.delivOff(out, off))
 			}
 
 			p.produce(out)
@@ -541,7 +557,7 @@ func (p *Pipe) delayWorker() {
 		p.mu.Lock()
 
 		for _, off := range d.bounds {
-			p.bounds = append(p.bounds, p.produced+off)
+			p.bounds = append(p.bounds, p.produced+p.delivOff(d.b, off))
 		}
 
 		p.produce(d.b)
